@@ -1,5 +1,77 @@
 import Ecal.Drivers.Util
+import Ecal.Model.Parser
+import Ecal.Model.TokenChannel
+import Ecal.Model.ParserWF
+/-!
+Driver of C07. Payload (space separated): `<source-hex> <token>,<token>,…` where the token list
+is what the REAL lexer (`parser.LexToList`) produced for the source and
+`<token> = id.pos.valhex.identifier.allowEscapes.prefixNewlines.line.col`.
+The model parser runs on these tokens. Result:
+  `OK <tree> wf=<0|1> leak=<0|1>`   or   `ERR <kind> <line> <col> leak=<0|1>`
+`<tree>` = `(name valhex raw child…)` without positions; `wf` = `WellFormed` decided on that
+tree; `leak` = verdict of the channel model (with drain) for the number of tokens the model parser
+had taken when it returned.
+-/
 namespace Ecal.Drv.C07
-/-- model driver of property C07 (stub: not implemented yet) -/
-def run (_args : List String) : IO Unit := Ecal.Drv.lineLoop fun _ => "unimplemented"
+open Ecal.Drv Ecal.Lex Ecal.Parse
+
+def parseInt (s : String) : Option Int :=
+  if s.startsWith "-" then (s.drop 1).toString.toNat?.map (fun n => - (Int.ofNat n))
+  else s.toNat?.map Int.ofNat
+
+def parseTok (s : String) : Option Tok :=
+  match s.splitOn "." with
+  | [id, pos, val, ident, esc, pnl, line, col] => do
+    let id ← id.toNat?
+    let pos ← pos.toNat?
+    let val ← hexDecode val
+    let pnl ← pnl.toNat?
+    let line ← line.toNat?
+    let col ← parseInt col
+    some { id := id, pos := pos, val := val, identifier := ident = "1", allowEscapes := esc = "1",
+           prefixNl := pnl, line := line, col := col }
+  | _ => none
+
+def nameText (s : String) : String := if s.isEmpty then "~" else s
+
+partial def treeText (n : Node) : String :=
+  let tokText := match n.tok with
+    | some t => hexEnc t.val ++ " " ++ (if t.allowEscapes then "e" else "r")
+    | none => "~ ~"
+  let kids := n.children.map fun c => match c with
+    | some c => " " ++ treeText c
+    | none => " NIL"
+  "(" ++ nameText n.name ++ " " ++ tokText ++ String.join kids ++ ")"
+
+def kindText (k : String) : String :=
+  if k = "Unexpected end" then "UnexpectedEnd"
+  else if k = "Lexical error" then "LexicalError"
+  else if k = "Unknown term" then "UnknownToken"
+  else if k = "Term cannot start an expression" then "ImpossibleNullDenotation"
+  else if k = "Term can only start an expression" then "ImpossibleLeftDenotation"
+  else if k = "Unexpected term" then "UnexpectedToken"
+  else "?" ++ k
+
+def b01 (b : Bool) : String := if b then "1" else "0"
+
+def runCase (payload : String) : String :=
+  match payload.splitOn " " with
+  | [_src, toks] =>
+    let toks? := if toks = "-" then some [] else (toks.splitOn ",").mapM parseTok
+    match toks? with
+    | none => "bad-payload"
+    | some ts =>
+      let k := consumed ts
+      let tail := " leak=" ++ b01 (Ecal.Chan.leaks true ts.length (k + 2))
+      let nt := if ts.length ≥ 3 then "\tnt=1" else ""
+      match parseToks ts with
+      | (some t, none) => "OK " ++ treeText t ++ " wf=" ++ b01 (WellFormed t) ++ tail ++ nt
+      | (none, some (.perr kind l c)) => "ERR " ++ kindText kind ++ " " ++ toString l ++ " " ++ toString c ++ tail ++ nt
+      | (none, some .panic) => "PANIC-PREDICTED" ++ tail
+      | (none, some .fuel) => "OUT-OF-FUEL" ++ tail
+      | (some _, some _) => "BOTH" ++ tail
+      | (none, none) => "NEITHER" ++ tail
+  | _ => "bad-payload"
+
+def run (_args : List String) : IO Unit := lineLoop runCase
 end Ecal.Drv.C07
